@@ -211,15 +211,61 @@ def py_facts():
     g = t.get("_grow")
     if not isinstance(s, ast.FunctionDef) or not isinstance(g, ast.FunctionDef):
         raise AnalysisError("anchor vanished: _Tree._set/_grow")
-    for ifs in ast.walk(s):
-        if isinstance(ifs, ast.If) and pyfront.unparse(ifs.test) in (
-                "type(child) is type(self)", "type(self) is type(child)"):
-            def src(body):
-                for st in body:
-                    if isinstance(st, ast.Assign) and pyfront.unparse(st.targets[0]) == "max_size":
-                        return pyfront.unparse(st.value).split(".")[-1]
-            facts["_tree"] = src(ifs.body)
-            facts["_leaf"] = src(ifs.orelse)
+    # which class attribute is the limit, for a child that is a tree / a leaf: the
+    # assignments to max_size are followed through if statements, conditional
+    # expressions and locals that name the child-kind test
+    KIND_TESTS = ("type(child) is type(self)", "type(self) is type(child)", "isinstance(child, type(self))",
+                  "type(child) is self.__class__")
+    LEAF_TESTS = ("type(child) is self._bucket_type", "isinstance(child, self._bucket_type)")
+    one_def = {}
+    for a in ast.walk(s):
+        if isinstance(a, ast.Assign) and len(a.targets) == 1 and isinstance(a.targets[0], ast.Name):
+            one_def.setdefault(a.targets[0].id, []).append(a.value)
+
+    def kind_cond(t, is_tree, depth=0):
+        if isinstance(t, ast.UnaryOp) and isinstance(t.op, ast.Not):
+            v = kind_cond(t.operand, is_tree, depth)
+            return None if v is None else not v
+        u = pyfront.unparse(t)
+        if u in KIND_TESTS:
+            return is_tree
+        if u in LEAF_TESTS:
+            return not is_tree
+        if isinstance(t, ast.Name) and len(one_def.get(t.id, ())) == 1 and depth < 3:
+            return kind_cond(one_def[t.id][0], is_tree, depth + 1)
+        return None
+
+    def limit_of(is_tree):
+        found = [None]
+
+        def val(e):
+            if isinstance(e, ast.IfExp):
+                c = kind_cond(e.test, is_tree)
+                if c is None:
+                    return None
+                return val(e.body if c else e.orelse)
+            return pyfront.unparse(e).split(".")[-1]
+
+        def walk(stmts):
+            for st in stmts:
+                if isinstance(st, ast.If):
+                    c = kind_cond(st.test, is_tree)
+                    if c is None:
+                        walk(st.body)
+                        walk(st.orelse)
+                    else:
+                        walk(st.body if c else st.orelse)
+                elif isinstance(st, ast.Assign) and pyfront.unparse(st.targets[0]) == "max_size":
+                    found[0] = val(st.value)
+                elif isinstance(st, (ast.For, ast.While, ast.Try, ast.With)):
+                    for sub in ast.iter_child_nodes(st):
+                        if isinstance(sub, list):
+                            walk(sub)
+                    walk(getattr(st, "body", []))
+        walk(s.body)
+        return found[0]
+    facts["_tree"] = limit_of(True)
+    facts["_leaf"] = limit_of(False)
     for c in ast.walk(s):
         if isinstance(c, ast.Compare) and pyfront.unparse(c.comparators[0]) == "max_size":
             op = {ast.Gt: ">", ast.GtE: ">=", ast.Lt: "<", ast.LtE: "<="}.get(type(c.ops[0]))
